@@ -52,6 +52,11 @@ class Tie:
             if not m or m.group(1) in ('panic', 'hang'):
                 self.stats['not_measured'] += 1            # abort / panic of the async preallocation (F-09e), hang
                 continue
+            if not am and (mo or '').startswith('CRASH runner produced no output'):
+                # the extracted model did not answer within the batch's time limit (long input, loaded machine): not compared --
+                # the oracle still bounds the measured peak directly
+                self.stats['model_no_answer'] = self.stats.get('model_no_answer', 0) + 1
+                continue
             if not am:
                 bad.append((c, o, mo, 'model runner: %s' % (mo or '')[:100]))
                 continue
